@@ -35,6 +35,7 @@ from . import __version__ as rebench_version
 from .executor import Executor, BatchScheduler, RoundRobinScheduler, \
     RandomScheduler, BenchmarkThreadExceptions
 from .denoise_client import minimize_noise, restore_noise
+from .subprocess_with_timeout import setup_signal_handling
 from .environment import init_environment
 from .persistence    import DataStore
 from .rebenchdb      import get_current_time
@@ -294,6 +295,11 @@ Argument:
             denoise_result = None
             show_denoise_warnings = not (self._config.artifact_review
                                          or self._config.options.execution_plan)
+
+            # SIGTERM has to end the session like Ctrl-C from here on, so that
+            # the system settings are restored. Benchmarks may all be executed by
+            # worker threads, and the first one may be started much later.
+            setup_signal_handling()
             try:
                 denoise_result = minimize_noise(show_denoise_warnings, self.ui, does_profiling)
                 use_nice = denoise_result.use_nice
